@@ -187,7 +187,7 @@ func (r *transport) RoundTrip(req *http.Request) (*http.Response, error) {
 		r2.Method = http.MethodGet
 		req = &r2
 	}
-	urlKey := r.uk.URLKey(req.URL)
+	urlKey := r.uk.URLKey(internal.TargetURL(req))
 
 	if !r.rmc.IsRequestMethodUnderstood(req) {
 		return r.handleUnrecognizedMethod(req, urlKey)
@@ -249,7 +249,7 @@ func (r *transport) handleUnrecognizedMethod(
 	}
 	if internal.IsNonErrorStatus(resp.StatusCode) {
 		refs, _ := r.cache.GetRefs(urlKey)
-		r.ci.InvalidateCache(req.URL, resp.Header, refs, urlKey)
+		r.ci.InvalidateCache(internal.TargetURL(req), resp.Header, refs, urlKey)
 	}
 	internal.CacheStatusBypass.ApplyTo(resp.Header)
 	r.logger.LogCacheBypass(
